@@ -451,3 +451,251 @@ Proof.
   destruct p as [f d]. destruct f; cbn [fst header_field field_eqb prefix_field rdnss_field dnssl_field]; try lia.
   destruct d; reflexivity.
 Qed.
+
+(* ------------------------------------------------------------------ consequences *)
+Lemma verify_nil_iff : forall a b, verify a b = [] <-> (forall p, expected_count a b p = 0%nat).
+Proof.
+  intros a b. split.
+  - intros H p. rewrite <- verify_count, H. reflexivity.
+  - intro H. apply all_count_zero_nil. intro p. rewrite verify_count. apply H.
+Qed.
+
+Lemma verify_in_expected : forall a b p, In p (verify a b) -> (1 <= expected_count a b p)%nat.
+Proof. intros a b p H. rewrite <- verify_count. apply count_pos_in. assumption. Qed.
+
+Lemma b2n_zero : forall c, b2n c = 0%nat <-> c = false.
+Proof. destruct c; cbn; split; intro; try reflexivity; discriminate. Qed.
+
+Lemma count_pairs_zero : forall A B (g : A -> B -> bool) la lb,
+  count_pairs g la lb = 0%nat <-> (forall x y, In x la -> In y lb -> g x y = false).
+Proof.
+  intros. rewrite count_pairs_sum, sum_list_zero. split.
+  - intros H x y Hx Hy. specialize (H x Hx). rewrite sum_list_zero in H.
+    apply b2n_zero. apply H. assumption.
+  - intros H x Hx. apply sum_list_zero. intros y Hy. apply b2n_zero. auto.
+Qed.
+
+Lemma filter_combine_diag : forall A (g : A * A -> bool) (l : list A),
+  (forall x, g (x, x) = false) -> filter g (combine l l) = [].
+Proof. induction l; cbn; intro H; [reflexivity|]. rewrite H. auto. Qed.
+
+Lemma dns_index_count_diag : forall f A, (forall x, f x x = false) -> dns_index_count f A A = 0%nat.
+Proof.
+  intros. unfold dns_index_count. destruct (dns_comparable A A); [|reflexivity].
+  rewrite filter_combine_diag; [reflexivity|]. intro x. cbn. auto.
+Qed.
+Lemma dns_count_differs_diag : forall A, dns_count_differs A A = false.
+Proof. intro A. unfold dns_count_differs. rewrite Nat.eqb_refl. cbn. apply andb_false_r. Qed.
+Lemma differ_s_refl : forall x, differ_s x x = false.
+Proof. intro. unfold differ_s. now rewrite Z.eqb_refl. Qed.
+Lemma timers_conflict_refl : forall x, timers_conflict x x = false.
+Proof. intro. unfold timers_conflict. rewrite Z.eqb_refl. cbn. apply andb_false_r. Qed.
+Lemma firsts_differ_refl : forall l, firsts_differ l l = false.
+Proof. intro. unfold firsts_differ. destruct (hd_error l); [now rewrite N.eqb_refl | reflexivity]. Qed.
+
+Definition prefix_pair_ok (x y : (N * N) * (dur * dur)) : bool :=
+  negb (key_eqb (fst x) (fst y)) ||
+  (negb (differ_s (fst (snd x)) (fst (snd y))) && negb (differ_s (snd (snd x)) (snd (snd y)))).
+Definition route_pair_ok (x y : (N * N) * (pref * dur)) : bool :=
+  negb (key_eqb (fst x) (fst y)) || negb (pref_eqb (fst (snd x)) (fst (snd y))) ||
+  negb (differ_s (snd (snd x)) (snd (snd y))).
+
+Lemma self_consistent_spec : forall a,
+  self_consistent a = true <->
+  (forall x y, In x (prefix_opts a) -> In y (prefix_opts a) -> prefix_pair_ok x y = true) /\
+  (forall x y, In x (route_opts a) -> In y (route_opts a) -> route_pair_ok x y = true).
+Proof.
+  intro a. unfold self_consistent. rewrite andb_true_iff, !forallb_forall.
+  split; intros [H1 H2]; split; intros x.
+  - intros y Hx Hy. specialize (H1 x Hx). rewrite forallb_forall in H1. exact (H1 y Hy).
+  - intros y Hx Hy. specialize (H2 x Hx). rewrite forallb_forall in H2. exact (H2 y Hy).
+  - intro Hx. apply forallb_forall. intros y Hy. exact (H1 x y Hx Hy).
+  - intro Hx. apply forallb_forall. intros y Hy. exact (H2 x y Hx Hy).
+Qed.
+
+Lemma expected_self_zero : forall a p, self_consistent a = true -> expected_count a a p = 0%nat.
+Proof.
+  intros a [f d] H. apply self_consistent_spec in H. destruct H as [HP HR].
+  destruct f, d as [k|]; cbn [expected_count]; try reflexivity;
+    rewrite ?N.eqb_refl, ?xorb_nilpotent, ?timers_conflict_refl, ?firsts_differ_refl,
+      ?dns_count_differs_diag; try reflexivity;
+    try (apply dns_index_count_diag; intro x; rewrite ?differ_s_refl, ?list_eqb_refl; reflexivity).
+  - apply count_pairs_zero. intros x y Hx Hy. specialize (HP x y Hx Hy). unfold prefix_pair_ok in HP.
+    destruct (key_eqb (fst x) k) eqn:E1, (key_eqb (fst y) k) eqn:E2; cbn [andb]; try reflexivity.
+    apply key_eqb_eq in E1, E2. rewrite E1, E2, key_eqb_refl in HP. cbn in HP.
+    apply andb_true_iff in HP. destruct HP as [HP _]. now destruct (differ_s _ _).
+  - apply count_pairs_zero. intros x y Hx Hy. specialize (HP x y Hx Hy). unfold prefix_pair_ok in HP.
+    destruct (key_eqb (fst x) k) eqn:E1, (key_eqb (fst y) k) eqn:E2; cbn [andb]; try reflexivity.
+    apply key_eqb_eq in E1, E2. rewrite E1, E2, key_eqb_refl in HP. cbn in HP.
+    apply andb_true_iff in HP. destruct HP as [_ HP]. now destruct (differ_s _ _).
+  - apply count_pairs_zero. intros x y Hx Hy. specialize (HR x y Hx Hy). unfold route_pair_ok in HR.
+    destruct (key_eqb (fst x) k) eqn:E1, (key_eqb (fst y) k) eqn:E2; cbn [andb]; try reflexivity.
+    apply key_eqb_eq in E1, E2. rewrite E1, E2, key_eqb_refl in HR. cbn in HR.
+    destruct (pref_eqb _ _), (differ_s _ _); cbn in *; try reflexivity; discriminate.
+Qed.
+
+Lemma expected_self_zero_conv : forall a,
+  (forall p, expected_count a a p = 0%nat) -> self_consistent a = true.
+Proof.
+  intros a H. apply self_consistent_spec. split; intros x y Hx Hy.
+  - unfold prefix_pair_ok. destruct (key_eqb (fst x) (fst y)) eqn:E; [|reflexivity]. cbn [negb orb].
+    pose proof (H (FPrefixPreferred, Some (fst x))) as H1.
+    pose proof (H (FPrefixValid, Some (fst x))) as H2. cbn [expected_count] in H1, H2.
+    rewrite count_pairs_zero in H1, H2. specialize (H1 x y Hx Hy). specialize (H2 x y Hx Hy).
+    cbn beta in H1, H2. rewrite key_eqb_refl, (key_eqb_sym (fst y)), E in H1, H2. cbn [andb] in H1, H2.
+    rewrite H1, H2. reflexivity.
+  - unfold route_pair_ok. destruct (key_eqb (fst x) (fst y)) eqn:E; [|reflexivity]. cbn [negb orb].
+    pose proof (H (FRouteLifetime, Some (fst x))) as H1. cbn [expected_count] in H1.
+    rewrite count_pairs_zero in H1. specialize (H1 x y Hx Hy).
+    cbn beta in H1. rewrite key_eqb_refl, (key_eqb_sym (fst y)), E in H1. cbn [andb] in H1.
+    destruct (pref_eqb _ _), (differ_s _ _); cbn in *; try reflexivity; discriminate.
+Qed.
+
+Theorem verify_self_iff : forall a, verify a a = [] <-> self_consistent a = true.
+Proof.
+  intro a. rewrite verify_nil_iff. split.
+  - apply expected_self_zero_conv.
+  - intros H p. apply expected_self_zero. assumption.
+Qed.
+
+(* ------------------------------------------------------------------ the wire image *)
+Lemma wire_seconds_idem : forall d, wire_seconds (wire_seconds d) = wire_seconds d.
+Proof. intro. apply trunc_to_idem. exact sec_nz. Qed.
+Lemma wire_millis_idem : forall d, wire_millis (wire_millis d) = wire_millis d.
+Proof. intro. apply trunc_to_idem. exact ms_nz. Qed.
+
+Lemma check_durations_wire_r : forall x y, check_durations x (wire_millis y) = check_durations x y.
+Proof. intros. unfold check_durations. rewrite wire_millis_idem. reflexivity. Qed.
+Lemma check_durations_wire_l : forall x y, check_durations (wire_millis x) y = check_durations x y.
+Proof. intros. unfold check_durations. rewrite wire_millis_idem. reflexivity. Qed.
+
+Definition wire_pi (x : pinfo) : pinfo :=
+  mkPI (pi_pfx x) (pi_len x) (wire_seconds (pi_preferred x)) (wire_seconds (pi_valid x)).
+Definition wire_ri (x : rinfo) : rinfo :=
+  mkRI (ri_pfx x) (ri_len x) (ri_prf x) (wire_seconds (ri_lifetime x)).
+Definition wire_dns (x : dur * list N) : dur * list N := (wire_seconds (fst x), snd x).
+
+Lemma pick_prefixes_wire : forall os, pick_prefixes (map wire_opt os) = map wire_pi (pick_prefixes os).
+Proof. induction os as [|o os IH]; [reflexivity|]. destruct o; cbn; rewrite IH; reflexivity. Qed.
+Lemma pick_routes_wire : forall os, pick_routes (map wire_opt os) = map wire_ri (pick_routes os).
+Proof. induction os as [|o os IH]; [reflexivity|]. destruct o; cbn; rewrite IH; reflexivity. Qed.
+Lemma pick_rdnss_wire : forall os, pick_rdnss (map wire_opt os) = map wire_dns (pick_rdnss os).
+Proof. induction os as [|o os IH]; [reflexivity|]. destruct o; cbn; rewrite IH; reflexivity. Qed.
+Lemma pick_dnssl_wire : forall os, pick_dnssl (map wire_opt os) = map wire_dns (pick_dnssl os).
+Proof. induction os as [|o os IH]; [reflexivity|]. destruct o; cbn; rewrite IH; reflexivity. Qed.
+Lemma pick_first_mtu_wire : forall os, pick_first_mtu (map wire_opt os) = pick_first_mtu os.
+Proof. induction os as [|o os IH]; [reflexivity|]. destruct o; cbn; auto. Qed.
+Lemma pick_first_captive_wire : forall os, pick_first_captive (map wire_opt os) = pick_first_captive os.
+Proof. induction os as [|o os IH]; [reflexivity|]. destruct o; cbn; auto. Qed.
+
+Lemma is_nil_map : forall A B (h : A -> B) l, is_nil (map h l) = is_nil l.
+Proof. destruct l; reflexivity. Qed.
+Lemma flat_map_map : forall A B C (h : A -> B) (F : B -> list C) l,
+  flat_map F (map h l) = flat_map (fun x => F (h x)) l.
+Proof. induction l; cbn; congruence. Qed.
+Lemma flat_map_ext' : forall A B (F G : A -> list B) l, (forall x, F x = G x) -> flat_map F l = flat_map G l.
+Proof. induction l; cbn; intro H; [reflexivity|]. rewrite H, IHl by assumption. reflexivity. Qed.
+
+Lemma check_prefix_pair_wire_r : forall x y, check_prefix_pair x (wire_pi y) = check_prefix_pair x y.
+Proof. intros. unfold check_prefix_pair, wire_pi. cbn. rewrite !wire_seconds_idem. reflexivity. Qed.
+Lemma check_prefix_pair_wire_l : forall x y, check_prefix_pair (wire_pi x) y = check_prefix_pair x y.
+Proof. intros. unfold check_prefix_pair, wire_pi. cbn. rewrite !wire_seconds_idem. reflexivity. Qed.
+Lemma check_route_pair_wire_r : forall x y, check_route_pair x (wire_ri y) = check_route_pair x y.
+Proof. intros. unfold check_route_pair, wire_ri. cbn. rewrite !wire_seconds_idem. reflexivity. Qed.
+Lemma check_route_pair_wire_l : forall x y, check_route_pair (wire_ri x) y = check_route_pair x y.
+Proof. intros. unfold check_route_pair, wire_ri. cbn. rewrite !wire_seconds_idem. reflexivity. Qed.
+Lemma check_dns_pair_wire_r : forall fl fi x y, check_dns_pair fl fi x (wire_dns y) = check_dns_pair fl fi x y.
+Proof. intros. unfold check_dns_pair, wire_dns. cbn. rewrite !wire_seconds_idem. reflexivity. Qed.
+Lemma check_dns_pair_wire_l : forall fl fi x y, check_dns_pair fl fi (wire_dns x) y = check_dns_pair fl fi x y.
+Proof. intros. unfold check_dns_pair, wire_dns. cbn. rewrite !wire_seconds_idem. reflexivity. Qed.
+
+Lemma check_dns_loop_wire_r : forall fl fi A B,
+  check_dns_loop fl fi A (map wire_dns B) = check_dns_loop fl fi A B.
+Proof.
+  induction A as [|a A IH]; intros [|b B]; cbn [map check_dns_loop]; try reflexivity.
+  rewrite check_dns_pair_wire_r, IH. reflexivity.
+Qed.
+Lemma check_dns_loop_wire_l : forall fl fi A B,
+  check_dns_loop fl fi (map wire_dns A) B = check_dns_loop fl fi A B.
+Proof.
+  induction A as [|a A IH]; intros [|b B]; cbn [map check_dns_loop]; try reflexivity.
+  rewrite check_dns_pair_wire_l, IH. reflexivity.
+Qed.
+Lemma check_dns_wire_r : forall fc fl fi A B,
+  check_dns fc fl fi A (map wire_dns B) = check_dns fc fl fi A B.
+Proof. intros. unfold check_dns. rewrite is_nil_map, map_length, check_dns_loop_wire_r. reflexivity. Qed.
+Lemma check_dns_wire_l : forall fc fl fi A B,
+  check_dns fc fl fi (map wire_dns A) B = check_dns fc fl fi A B.
+Proof. intros. unfold check_dns. rewrite is_nil_map, map_length, check_dns_loop_wire_l. reflexivity. Qed.
+
+(* what verifyRAs reports depends only on the wire image of the received RA ... *)
+Theorem verify_wire_r : forall a b, verify a (wire_ra b) = verify a b.
+Proof.
+  intros a b. unfold verify. f_equal; [|f_equal; [|f_equal; [|f_equal; [|f_equal; [|f_equal]]]]].
+  - unfold check_ras. cbn [wire_ra ra_hop ra_managed ra_other ra_reachable ra_retrans].
+    rewrite !check_durations_wire_r. reflexivity.
+  - unfold check_mtus. cbn [wire_ra ra_opts]. rewrite pick_first_mtu_wire. reflexivity.
+  - unfold check_prefixes. cbn [wire_ra ra_opts]. rewrite pick_prefixes_wire, is_nil_map.
+    destruct (is_nil (pick_prefixes (ra_opts a)) || is_nil (pick_prefixes (ra_opts b))); [reflexivity|].
+    apply flat_map_ext'. intro x. rewrite flat_map_map. apply flat_map_ext'. intro y.
+    apply check_prefix_pair_wire_r.
+  - unfold check_routes. cbn [wire_ra ra_opts]. rewrite pick_routes_wire, is_nil_map.
+    destruct (is_nil (pick_routes (ra_opts a)) || is_nil (pick_routes (ra_opts b))); [reflexivity|].
+    apply flat_map_ext'. intro x. rewrite flat_map_map. apply flat_map_ext'. intro y.
+    apply check_route_pair_wire_r.
+  - unfold check_rdnss. cbn [wire_ra ra_opts]. rewrite pick_rdnss_wire. apply check_dns_wire_r.
+  - unfold check_dnssl. cbn [wire_ra ra_opts]. rewrite pick_dnssl_wire. apply check_dns_wire_r.
+  - unfold check_captive. cbn [wire_ra ra_opts]. rewrite pick_first_captive_wire. reflexivity.
+Qed.
+
+(* ... and of the own RA (the labels are those of the own options, which the wire keeps) *)
+Lemma check_prefix_pair_details_l : forall x, (pi_pfx (wire_pi x), pi_len (wire_pi x)) = (pi_pfx x, pi_len x).
+Proof. reflexivity. Qed.
+
+Theorem verify_wire_l : forall a b, verify (wire_ra a) b = verify a b.
+Proof.
+  intros a b. unfold verify. f_equal; [|f_equal; [|f_equal; [|f_equal; [|f_equal; [|f_equal]]]]].
+  - unfold check_ras. cbn [wire_ra ra_hop ra_managed ra_other ra_reachable ra_retrans].
+    rewrite !check_durations_wire_l. reflexivity.
+  - unfold check_mtus. cbn [wire_ra ra_opts]. rewrite pick_first_mtu_wire. reflexivity.
+  - unfold check_prefixes. cbn [wire_ra ra_opts]. rewrite pick_prefixes_wire, is_nil_map.
+    destruct (is_nil (pick_prefixes (ra_opts a)) || is_nil (pick_prefixes (ra_opts b))); [reflexivity|].
+    rewrite flat_map_map. apply flat_map_ext'. intro x. apply flat_map_ext'. intro y.
+    apply check_prefix_pair_wire_l.
+  - unfold check_routes. cbn [wire_ra ra_opts]. rewrite pick_routes_wire, is_nil_map.
+    destruct (is_nil (pick_routes (ra_opts a)) || is_nil (pick_routes (ra_opts b))); [reflexivity|].
+    rewrite flat_map_map. apply flat_map_ext'. intro x. apply flat_map_ext'. intro y.
+    apply check_route_pair_wire_l.
+  - unfold check_rdnss. cbn [wire_ra ra_opts]. rewrite pick_rdnss_wire. apply check_dns_wire_l.
+  - unfold check_dnssl. cbn [wire_ra ra_opts]. rewrite pick_dnssl_wire. apply check_dns_wire_l.
+  - unfold check_captive. cbn [wire_ra ra_opts]. rewrite pick_first_captive_wire. reflexivity.
+Qed.
+
+Theorem verify_self_wire_iff : forall a, verify a (wire_ra a) = [] <-> self_consistent a = true.
+Proof. intro a. rewrite verify_wire_r. apply verify_self_iff. Qed.
+
+(* an RA whose durations are whole wire units is its own wire image, as far as durations go *)
+Lemma trunc_to_whole : forall m d, m <> 0 -> Z.rem d m = 0 -> trunc_to m d = d.
+Proof. intros. unfold trunc_to. lia. Qed.
+
+(* ------------------------------------------------------------------ Advertiser.handle *)
+Lemma handle_counted : forall a b, h_counted (handle_ra (Ok a) b) = verify a b.
+Proof. intros. unfold handle_ra. destruct (verify a b); reflexivity. Qed.
+Lemma handle_hook : forall a b,
+  h_hook (handle_ra (Ok a) b) = (if is_nil (verify a b) then 0 else 1)%N.
+Proof. intros. unfold handle_ra. destruct (verify a b); reflexivity. Qed.
+Lemma handle_hook_iff : forall a b, h_hook (handle_ra (Ok a) b) = 1%N <-> verify a b <> [].
+Proof.
+  intros. rewrite handle_hook. destruct (verify a b); cbn; split; intro H; try discriminate; try reflexivity.
+  contradiction.
+Qed.
+Lemma handle_hook_le1 : forall o b, (h_hook (handle_ra o b) <= 1)%N.
+Proof. intros [a|c] b; cbn; [|lia]. destruct (is_nil (verify a b)); cbn; lia. Qed.
+Lemma handle_logged : forall a b,
+  h_logged (handle_ra (Ok a) b) =
+  (if is_nil (verify a b) then 0 else N.of_nat (S (length (verify a b))))%N.
+Proof. intros. unfold handle_ra. destruct (verify a b); reflexivity. Qed.
+Lemma handle_never_fails : forall a b, h_failed (handle_ra (Ok a) b) = false.
+Proof. intros. unfold handle_ra. destruct (is_nil (verify a b)); reflexivity. Qed.
+Lemma handle_build_error : forall c b, handle_ra (Err c) b = mkHandleOut [] 0 0 true.
+Proof. reflexivity. Qed.
